@@ -6,7 +6,7 @@ namespace detail {
 #pragma pack(push, 1)
 
 struct TaskStatus final {
-	enum Result {
+	enum Result : uint8_t {
 		NONE,
 		SUCCESS,
 		FAILURE
